@@ -921,7 +921,7 @@ func (vfs *OrefaFS) Stat(path string) (fs.FileInfo, error) {
 // stat is the internal function used by Stat and Lstat.
 func (vfs *OrefaFS) stat(path, op string) (fs.FileInfo, error) {
 	absPath, _ := vfs.Abs(path)
-	dirName, fileName := avfs.SplitAbs(vfs, absPath)
+	dirName, _ := avfs.SplitAbs(vfs, absPath)
 
 	vfs.mu.RLock()
 	child, childOk := vfs.nodes[absPath]
@@ -943,7 +943,8 @@ func (vfs *OrefaFS) stat(path, op string) (fs.FileInfo, error) {
 		return nil, &fs.PathError{Op: op, Path: path, Err: vfs.err.NotADirectory}
 	}
 
-	fst := child.fillStatFrom(fileName)
+	// As in package os, the name is the base name of the path given.
+	fst := child.fillStatFrom(vfs.Base(path))
 
 	return fst, nil
 }
